@@ -105,6 +105,25 @@ def gen_cases(tier, seed):
                 cfg = dict(multipart_threshold=16, multipart_chunksize=8, io_chunksize=4, max_request_concurrency=2)
                 cases.append({'seed': rng.randrange(1 << 30), 'min_part': 8, 'config': cfg, 'transfers': [t], 'family': 'window',
                               'entry': 'future.cancel', 'yield': {'p': 0.0, 'window': dict(wdw, nth=nth, target=0)}})
+    # cancel while the transport is in the middle of reading an upload body (between two of its reads), with and without a
+    # bandwidth limit configured (a generous one: the body is then wrapped by the limiter as well)
+    for i in range(60 if quick else 600):
+        src = rng.choice(['path', 'seekable', 'nonseekable'])
+        multi = rng.random() < 0.5
+        size = rng.choice([20, 27, 33]) if multi else rng.choice([9, 12, 15])
+        cfg = dict(multipart_threshold=16, multipart_chunksize=8, max_request_concurrency=rng.choice([1, 2]))
+        if rng.random() < 0.5:
+            cfg['max_bandwidth'] = 10 ** 12
+        op = f't0/s3:UploadPart:{rng.choice([1, 2])}#0' if multi else 't0/s3:PutObject#0'
+        how = rng.choice(['future.cancel', 'future.cancel', 'shutdown_cancel', 'with_exc'])
+        s = {'seed': rng.randrange(1 << 30), 'min_part': 8, 'config': cfg, 'transfers': [{'kind': 'upload', 'src': src, 'size': size}],
+             'client': {'checksum': 'when_required', 'scheme': 'https'}, 'body_read_sizes': [rng.choice([1, 2, 3])], 'entry': how, 'family': 'mid-body',
+             'plan': {'cancel': {'at': f'{op}.send#{rng.choice([1, 2])}', 'phase': 'before', 'how': how, 'from': rng.choice(['main', 'event']) if how == 'future.cancel' else 'main'}}}
+        if how != 'future.cancel':
+            s['mode'] = how
+            s['trigger'] = 'event'
+            s['cancel_msg'] = rng.choice(msgs)
+        cases.append(s)
     # Ctrl-C (a real SIGINT delivered to the main thread with pthread_kill) while the user is blocked in result() / shutdown()
     for bi, base in enumerate(bases()):
         t = base['transfers'][0]
